@@ -190,7 +190,7 @@ func init() {
 				// recogniser: `patchesJson6902` runs AFTER namespace/prefix/suffix/labels, `patches` before them, so a target
 				// selector can match a resource under its new name in one spelling and not in the other.  The generated
 				// JSON patches only add metadata.annotations.jp: if that is the whole difference, it is that finding.
-				if strings.Contains(strings.Join(usedAll, ","), "patchesJson6902") && stripJP(base) == stripJP(dep) {
+				if strings.Contains(strings.Join(usedAll, ","), "patchesJson6902") && stripJP(base) == stripJP(dep) && jpTextsNested(base, dep) {
 					class = "json6902-target-selected-after-renaming"
 					what = "a patchesJson6902 target selects a different set of resources than the same entry under `patches` (it runs after the renaming transformers)"
 				}
@@ -228,7 +228,7 @@ func init() {
 				// renaming transformers instead of after them; when the outputs agree once the JSON patches' own annotation is left
 				// out, the only difference is WHICH resources a target selected
 				for _, u := range used {
-					if u == "patchesJson6902" && stripJP(before) == stripJP(after) {
+					if u == "patchesJson6902" && stripJP(before) == stripJP(after) && jpTextsNested(before, after) {
 						cls = "json6902-target-selected-after-renaming"
 						what = "after edit fix a former patchesJson6902 target selects another set of resources (as a `patches` entry it runs before the renaming transformers)"
 					}
@@ -257,6 +257,32 @@ func uniqStrs(xs []string) []string {
 var _ = fmt.Sprint
 
 // stripJP removes the annotation written by the generated JSON patches (and an annotations map left empty by that)
+// jpTextsNested: the renderings of the JSON patches' own annotations (`jp: …`, `jp2: …` lines) in one output are a subset of
+// those in the other — the two builds wrote the SAME values, to other (more, fewer) resources.  Different renderings of one value
+// (`"yes"` here, `true` there) are another difference than finding C19-K1 and must not be taken for it.
+func jpTextsNested(a, b string) bool {
+	texts := func(out string) map[string]bool {
+		m := map[string]bool{}
+		for _, l := range strings.Split(out, "\n") {
+			t := strings.TrimSpace(l)
+			if strings.HasPrefix(t, "jp: ") || strings.HasPrefix(t, "jp2: ") {
+				m[t] = true
+			}
+		}
+		return m
+	}
+	ta, tb := texts(a), texts(b)
+	sub := func(x, y map[string]bool) bool {
+		for k := range x {
+			if !y[k] {
+				return false
+			}
+		}
+		return true
+	}
+	return sub(ta, tb) || sub(tb, ta)
+}
+
 func stripJP(out string) string {
 	var ls []string
 	lines := strings.Split(out, "\n")
